@@ -82,7 +82,8 @@ theorem faithful_of_good (z : Zip) (placed : Placed) (saved : List Sig) (hg : Go
 
 /-- the source, as read by the translator on this run, has the repaired variant in all three places -/
 theorem source_has_the_repaired_variants :
-    Sm.Gen.zipNameConsultsBuffer = true ∧ Sm.Gen.sqliteRecordsSeed = true ∧ Sm.Gen.lcaYieldsEmpty = true := by
+    Sm.Gen.zipNameConsultsBuffer = true ∧ Sm.Gen.sqliteRecordsSeed = true ∧ Sm.Gen.lcaYieldsEmpty = true ∧
+    Sm.Gen.manifestPicklistFullKey = true := by
   decide
 
 /-- MAIN STATEMENT for zip collections (current source: `_content_matches` also looks into `bufferzip`).
@@ -182,8 +183,8 @@ theorem zip_rebuilt_manifest_spec (s0 : List Sig) (rest : List (List Sig)) :
     zip's manifest, internal_location := the zip): reloading through it equals the generic reload -/
 theorem standalone_manifest_reload_faithful (s0 : List Sig) (rest : List (List Sig)) (k : Nat) :
     ∃ z rows, zipSessions none (s0 :: rest) = .ok (some z) ∧ zipManifest z = some rows ∧
-      standaloneLoadFs [(k, z)] (relocate k rows) = .ok (dedup (s0 :: rest).flatten) ∧
-      standaloneLoadFs [(k, z)] (relocate k rows) = zipLoad z := by
+      standaloneLoadFs true [(k, z)] (relocate k rows) = .ok (dedup (s0 :: rest).flatten) ∧
+      standaloneLoadFs true [(k, z)] (relocate k rows) = zipLoad z := by
   obtain ⟨z, placed, hrun, hm, hg, hx⟩ := zip_sessions_structure s0 rest
   have hload := zipLoad_good_dedup z placed hg hx
   refine ⟨z, placed.map rowOf, hrun, by simp [zipManifest, hg.manifest], ?_, ?_⟩
@@ -192,7 +193,7 @@ theorem standalone_manifest_reload_faithful (s0 : List Sig) (rest : List (List S
       rw [← hm, hp]
       rfl
     | cons a t =>
-      have := standalone_zip_part z placed hg hx k (fun _ => true) (fun _ _ _ _ _ _ => rfl)
+      have := standalone_zip_part true z placed hg hx k (fun _ => true) (fun _ _ _ _ _ _ => rfl)
         (by rw [hp]; simp)
       have hft : placed.filter (fun _ => true) = placed := List.filter_eq_self.2 (fun _ _ => rfl)
       rw [hft] at this
@@ -202,26 +203,51 @@ theorem standalone_manifest_reload_faithful (s0 : List Sig) (rest : List (List S
       rw [hload, hp]
       rfl
     | cons a t =>
-      have := standalone_zip_part z placed hg hx k (fun _ => true) (fun _ _ _ _ _ _ => rfl)
+      have := standalone_zip_part true z placed hg hx k (fun _ => true) (fun _ _ _ _ _ _ => rfl)
         (by rw [hp]; simp)
       have hft : placed.filter (fun _ => true) = placed := List.filter_eq_self.2 (fun _ _ => rfl)
       rw [hft] at this
       rw [← hp, this, hload]
 
-/-- a standalone manifest listing only a PART of the zip (e.g. after a selection), under the exclusion of
-    C12.3 (no unlisted signature shares (name, md5[:8]) with a listed one): exactly the listed signatures
-    come back.  `P` says which placed signatures are listed. -/
+/-- a standalone manifest listing only a PART of the zip (e.g. after a selection).  Current source (the
+    manifest-derived picklist compares the rows' full (name, md5)): exactly the listed signatures come back,
+    provided no UNLISTED signature of the zip has the same name AND the same md5 as a listed one (same
+    hashes and name, differing in abundances / file name / scaled ...: the residue of C12.3).
+    `P` says which placed signatures are listed. -/
 theorem standalone_manifest_part_faithful (s0 : List Sig) (rest : List (List Sig)) (k : Nat) :
     ∃ (z : Zip) (placed : Placed), zipSessions none (s0 :: rest) = .ok (some z) ∧
       placed.map (·.2) = (s0 :: rest).flatten ∧ zipManifest z = some (placed.map rowOf) ∧
       ∀ P : MName × Sig → Bool,
-        (∀ p ∈ placed, ∀ q ∈ placed, P q = true → pickKey q = pickKey p → P p = true) →
+        (∀ p ∈ placed, ∀ q ∈ placed, P q = true → q.2.name = p.2.name → q.2.md5 = p.2.md5 → P p = true) →
         placed.filter P ≠ [] →
-        standaloneLoadFs [(k, z)] (relocate k ((placed.filter P).map rowOf)) =
+        standaloneLoadFs true [(k, z)] (relocate k ((placed.filter P).map rowOf)) =
           .ok (dedup ((placed.filter P).map (·.2))) := by
   obtain ⟨z, placed, hrun, hm, hg, hx⟩ := zip_sessions_structure s0 rest
-  exact ⟨z, placed, hrun, hm, by simp [zipManifest, hg.manifest],
-    fun P hexcl hne => standalone_zip_part z placed hg hx k P hexcl hne⟩
+  refine ⟨z, placed, hrun, hm, by simp [zipManifest, hg.manifest], ?_⟩
+  intro P hexcl hne
+  apply standalone_zip_part true z placed hg hx k P _ hne
+  intro p hp q hq hPq e
+  simp only [pickKey, sigKey, if_true, Prod.mk.injEq] at e
+  exact hexcl p hp q hq hPq e.1 e.2
+
+/-- regression, OLD variant of `to_picklist()` (before cff7217: (identifier, md5[:8])): the exclusion had to
+    cover every unlisted signature sharing the name and the FIRST 8 md5 DIGITS with a listed one (C12.3) -/
+theorem old_variant_standalone_manifest_part_faithful (s0 : List Sig) (rest : List (List Sig)) (k : Nat) :
+    ∃ (z : Zip) (placed : Placed), zipSessions none (s0 :: rest) = .ok (some z) ∧
+      placed.map (·.2) = (s0 :: rest).flatten ∧
+      ∀ P : MName × Sig → Bool,
+        (∀ p ∈ placed, ∀ q ∈ placed, P q = true → q.2.name = p.2.name →
+          q.2.md5 / 16 ^ 24 = p.2.md5 / 16 ^ 24 → P p = true) →
+        placed.filter P ≠ [] →
+        standaloneLoadFs false [(k, z)] (relocate k ((placed.filter P).map rowOf)) =
+          .ok (dedup ((placed.filter P).map (·.2))) := by
+  obtain ⟨z, placed, hrun, hm, hg, hx⟩ := zip_sessions_structure s0 rest
+  refine ⟨z, placed, hrun, hm, ?_⟩
+  intro P hexcl hne
+  apply standalone_zip_part false z placed hg hx k P _ hne
+  intro p hp q hq hPq e
+  simp only [pickKey, sigKey, Bool.false_eq_true, if_false, Prod.mk.injEq, md5short] at e
+  exact hexcl p hp q hq hPq e.1 e.2
 
 /-- a path list naming the zip (or two different zips): the generic reload(s), concatenated -/
 theorem pathlist_reload_faithful (s0 : List Sig) (rest : List (List Sig)) (k : Nat) :
@@ -237,13 +263,13 @@ theorem pathlist_reload_faithful (s0 : List Sig) (rest : List (List Sig)) (k : N
 /-- collections that are not zips answer `select(picklist)` row by row: through a complete standalone
     manifest the reload is the generic one -/
 theorem standalone_nonzip_complete (loaded : List Sig) (k : Nat) :
-    standaloneLoad (relocate k (loaded.map fun s => mkRow s none)) loaded = loaded := by
+    standaloneLoad true (relocate k (loaded.map fun s => mkRow s none)) loaded = loaded := by
   unfold standaloneLoad
   rw [List.filter_eq_self]
   intro s hs
   simp only [picklistOf, relocate, List.map_map, List.contains_eq_mem, List.mem_map, Function.comp,
     decide_eq_true_eq]
-  exact ⟨s, hs, by simp [mkRow]⟩
+  exact ⟨s, hs, rfl⟩
 
 /-- `_generate_filename`: the `_n` search terminates (the fuel is never exhausted), returns a name for this
     md5, "don't write" only when the very content is already there, "write" only on a name that is free in
@@ -350,9 +376,29 @@ theorem zip_rebuilt_manifest_example :
 theorem sql_manifest_counterexample :
     let rows := [mkRow sigA (some (.other 0)), mkRow sigB (some (.other 0)), mkRow sigC (some (.other 0))]
     sqlManifestKeep rows = [mkRow sigA (some (.other 0)), mkRow sigC (some (.other 0))] ∧
-    standaloneLoad (sqlManifestKeep rows) [sigA, sigB, sigC] = [sigA, sigC] ∧
-    standaloneLoad rows [sigA, sigB, sigC] = [sigA, sigB, sigC] := by
+    standaloneLoad true (sqlManifestKeep rows) [sigA, sigB, sigC] = [sigA, sigC] ∧
+    standaloneLoad true rows [sigA, sigB, sigC] = [sigA, sigB, sigC] := by
   refine ⟨?_, ?_, ?_⟩ <;> decide
+
+def sigX : Sig := { name := 1, filename := 0, md5 := 100 * 16 ^ 24 + 1, ksize := 21, mol := 0, num := 0, scaled := 1,
+                    seed := 42, track := false, hashes := [(7, 1)] }
+def sigY : Sig := { sigX with md5 := 100 * 16 ^ 24 + 2, hashes := [(8, 1)] }
+
+/-- kernel-checked: X and Y share the name and the first 8 md5 digits.  A manifest listing X only returns
+    X only with the current picklist key, X and Y with the old one (C12.3); a manifest listing A of the
+    same-md5 pair {A, B} (different names) returns A only under both -/
+def zipXYAB : Zip :=
+  match zipSessions none [[sigX, sigY, sigA, sigB]] with
+  | .ok (some z) => z
+  | _ => []
+
+theorem standalone_partial_example :
+    zipLoad zipXYAB = .ok [sigX, sigY, sigA, sigB] ∧
+    standaloneLoadFs true [(0, zipXYAB)] (relocate 0 [mkRow sigX none]) = .ok [sigX] ∧
+    standaloneLoadFs false [(0, zipXYAB)] (relocate 0 [mkRow sigX none]) = .ok [sigX, sigY] ∧
+    standaloneLoadFs true [(0, zipXYAB)] (relocate 0 [mkRow sigA none]) = .ok [sigA] ∧
+    standaloneLoadFs false [(0, zipXYAB)] (relocate 0 [mkRow sigA none]) = .ok [sigA] := by
+  refine ⟨?_, ?_, ?_, ?_, ?_⟩ <;> decide
 
 /-! ## SBT leaves: a freshly created zip, same name search -/
 
@@ -771,6 +817,61 @@ theorem lca_roundtrip_example :
     (r.1.saveLoad.signatures true).map (fun s => (s.name, s.hashes)) =
       [(3, [(5, 1)]), (1, [(1, 1), (2, 1), (3, 1)]), (2, [(1, 1), (2, 1), (3, 1)])] := by
   refine ⟨?_, ?_⟩ <;> decide
+
+/-! ## the command-line routes (`sig cat`, `sig split`, `sig collect`, `sig manifest`): compositions of the
+    loaders and savers above -/
+
+/-- `sourmash sig cat <collections> -o out`: the signatures read from the inputs (in order) are saved in ONE
+    create session.  Into a zip the output reloads as the input list without later exact duplicates, with
+    one manifest row per input signature; into a directory, as the input list itself; into a .sqldb either
+    every input is admitted and the output reloads as the input list, or `cat` fails loudly. -/
+theorem cli_cat_roundtrip (inputs : List Sig) :
+    (∃ z, zipSession none inputs = .ok z ∧ zipLoad z = .ok (dedup inputs) ∧
+      (zipManifest z).map List.length = some inputs.length) ∧
+    dirLoad (dirSessions [] [inputs]) = inputs ∧
+    ((∀ s ∈ inputs, s.num = 0 → s.track = false → FlatSorted s.hashes ∧ ∀ h ∈ s.hashes, h.1 < 2 ^ 64) →
+      ∃ db fl, sqlSessions true SqlDb.empty [inputs] = .ok (db, fl) ∧
+        (fl.flatten.all id = true → sqlLoad db = inputs)) := by
+  refine ⟨?_, ?_, ?_⟩
+  · obtain ⟨z, placed, hrun, hm, hg, hx⟩ := zip_sessions_structure inputs []
+    have hz : zipSession none inputs = .ok z := by
+      simp only [zipSessions] at hrun
+      cases h : zipSession none inputs with
+      | ok z1 => rw [h] at hrun; simp only at hrun; injection hrun with hrun; injection hrun with hrun; rw [hrun]
+      | err e => rw [h] at hrun; cases hrun
+    have hm' : placed.map (·.2) = inputs := by simpa using hm
+    refine ⟨z, hz, by rw [← hm']; exact zipLoad_good_dedup z placed hg hx, ?_⟩
+    simp [zipManifest, hg.manifest, ← hm']
+  · obtain ⟨placed, h1, h2, _, _, h5, _⟩ := dir_sessions_faithful [inputs]
+    simpa using h5
+  · intro hw
+    obtain ⟨db, h1, h2, _⟩ := sqlite_roundtrip [inputs] (by simpa using hw)
+    refine ⟨db, _, h1, ?_⟩
+    intro hall
+    rw [h2]
+    -- every add accepted: the accepted list is the input list
+    have : ∀ (l acc : List Sig), (sqlSpecAdds acc l).2.all id = true → (sqlSpecAdds acc l).1 = acc ++ l := by
+      intro l
+      induction l with
+      | nil => intro acc _; simp [sqlSpecAdds]
+      | cons x t ih =>
+        intro acc h
+        simp only [sqlSpecAdds] at h ⊢
+        by_cases hok : sqlOk acc x = true
+        · simp only [hok, if_true, List.all_cons, id, Bool.true_and] at h ⊢
+          rw [ih _ h]; simp
+        · simp [hok] at h
+    have h3 := this inputs [] (by simpa [sqlSpecSessions] using hall)
+    simpa [sqlSpecSessions] using h3
+
+/-- `--unique` keeps, per md5, the first signature read: nothing invented, one per md5, every md5 kept -/
+theorem cli_cat_unique_spec (inputs : List Sig) :
+    (∀ s ∈ catUnique inputs, s ∈ inputs) ∧ ((catUnique inputs).map (·.md5)).Nodup ∧
+    (∀ s ∈ inputs, ∃ t ∈ catUnique inputs, t.md5 = s.md5) :=
+  ⟨mem_catUnique inputs, catUnique_md5_nodup inputs, catUnique_covers inputs⟩
+
+/-- the command line reads a directory in file-name order: the same signatures as any other traversal -/
+theorem cli_directory_order (d : Dir) : (dirLoadSorted d).Perm (dirLoad d) := dirLoadSorted_perm d
 
 /-! ## which loader / which saver -/
 
